@@ -34,7 +34,7 @@ THEOREMS = ["C26_request_no_panic", "C26_run_preserves_cache", "C26_invalid_requ
 def main(ctx):
     ctx.rule = ("per case one random closed graph (1-3 typed inputs with dtype/shape metadata, 0-1 constants, 1-5 operators incl. "
                 "multi-output, optional inputs, captures, outputs that are graph inputs) and a sequence of 2-6 run/partial_run "
-                "requests; systematic part: each of 25 mutation classes (unknown / operator / duplicated input or output id, "
+                "requests; systematic part: each of 30 mutation classes (unknown / operator / duplicated input or output id, "
                 "missing / extra inputs, constant as input, dtype / sequence / rank / dim mismatch, permutations, inputs or "
                 "constants as outputs, partial_run, the F12 shapes [a,a,b] after {a,b,c}) applied cold (first request) and warm "
                 "(after a successful run); random part: 0-2 mutations per request. non-trivial = every case")
